@@ -106,6 +106,85 @@ def run(chk, facts, tier, only=None):
         fields = sorted({expr_path(n["a"]) for n in nodes(h["body"], "assign")})
         chk.expect(fields == ["self.config.decoding_quota", "self.config.skipping_quota"], "add_cost:both-quotas",
                    f"add_cost must decrement decoding_quota and skipping_quota; assigns {fields}")
+        # every successful exit has charged every quota that is configured and applies (path rule on the MIR)
+        from pathflow import Flow, simple_local
+        from facts import op_place, place_fields
+        b = c.method(r"^candid::de::Deserializer", "add_cost", "", kind="mir")
+        flow = Flow(b)
+        kind_of = {}      # local -> ("discr", quota) | ("untyped",)
+        for blk in b.blocks:
+            for st in blk["s"]:
+                if st["k"] != "assign":
+                    continue
+                l = simple_local(st["p"])
+                if l is None:
+                    continue
+                r = st["r"]
+                if r["k"] == "discr":
+                    fs = place_fields(r["p"])
+                    if fs and fs[-1] in ("decoding_quota", "skipping_quota"):
+                        kind_of[l] = ("discr", fs[-1])
+                elif r["k"] == "use":
+                    sp = op_place(r["o"])
+                    if sp is not None and place_fields(sp)[-1:] == ["is_untyped"]:
+                        kind_of[l] = ("untyped",)
+        exits = []
+
+        def on_stmt(bi, st, bits, cd):
+            if st["k"] == "assign":
+                fs = place_fields(st["p"])
+                if fs and fs[-1] in ("decoding_quota", "skipping_quota") and not (st["p"].get("p") or [])[-1:] == ["*"]:
+                    return frozenset(set(bits) | {"charged:" + fs[-1]})
+                if st["r"]["k"] == "agg" and st["r"].get("variant") == "Err":
+                    return frozenset(set(bits) | {"ERR"})
+            return bits
+
+        def on_term(bi, t, bits, cd):
+            if t["k"] == "return":
+                exits.append(bits)
+            return bits
+
+        def on_edge(bi, t, sb, kind, val, bits, cd):
+            if kind == "switch":
+                dl = simple_local(op_place(t["d"]) or {})
+                ko = kind_of.get(dl) or kind_of.get(flow.root_alias(dl))
+                if ko and ko[0] == "discr":
+                    none = (val == 0) or (isinstance(val, tuple) and val[0] == "else" and val[1] == (1,))
+                    return frozenset(set(bits) | {("none:" if none else "some:") + ko[1]})
+                if ko and ko[0] == "untyped":
+                    false = (val == 0) or (isinstance(val, tuple) and val[0] == "else" and val[1] == (1,))
+                    return frozenset(set(bits) | {"untyped:" + ("no" if false else "yes")})
+            return bits
+
+        flow.explore(frozenset(), on_stmt=on_stmt, on_term=on_term, on_edge=on_edge)
+        bad = []
+        for bits in exits:
+            if "ERR" in bits:
+                continue
+            if not ("charged:decoding_quota" in bits or "none:decoding_quota" in bits):
+                bad.append(("decoding_quota", sorted(bits)))
+            if not ("charged:skipping_quota" in bits or "none:skipping_quota" in bits or "untyped:no" in bits):
+                bad.append(("skipping_quota", sorted(bits)))
+        chk.expect(len(exits) >= 3 and not bad, "add_cost:every-applicable-quota-charged-on-success",
+                   f"add_cost returns Ok on a path where a configured quota that applies was not charged (decoding quota whenever it is set, "
+                   f"skipping quota whenever it is set and the data is being skipped): {bad[:2]}. Success must not depend on which other quota is configured.",
+                   ok_detail=f"{len(exits)} exits examined")
+        # get_value starts typed decoding: the untyped flag of an earlier argument must not leak
+        hg = c.fn(r"de::IDLDeserialize::<'de>::get_value$")
+        items = list(hg["body"].get("stmts") or []) + ([hg["body"]["e"]] if hg["body"].get("e") else [])
+        reset_at = call_at = None
+        for i, st in enumerate(items):
+            s = st.get("e") if st.get("k") == "semi" else st
+            if s.get("k") == "assign" and (expr_path(s["a"]) or "").endswith("de.is_untyped") and lit_value(s["b"]) is False:
+                reset_at = i
+            if call_at is None and any(x.get("k") == "mcall" and x["m"] == "deserialize_with_type" for x in walk(st)):
+                call_at = i
+        chk.expect(reset_at is not None and call_at is not None and reset_at < call_at, "get_value:resets-untyped",
+                   "IDLDeserialize::get_value must reset is_untyped to false before decoding: get_value_with_type / IDLValue arguments set it and "
+                   "nothing else clears it, so a native argument decoded afterwards would be metered (x50, and against the skipping quota) as if it were skipped")
+        hw = c.fn(r"de::IDLDeserialize::<'de>::get_value_with_type$")
+        sets = [x for x in nodes(hw["body"], "assign") if (expr_path(x["a"]) or "").endswith("de.is_untyped") and lit_value(x["b"]) is True]
+        chk.expect(len(sets) == 1, "get_value_with_type:sets-untyped", "get_value_with_type must mark the decoding as untyped (is_untyped = true)")
         # skipping quota only under is_untyped
         ok = False
         for n in nodes(h["body"], "if"):
